@@ -233,11 +233,11 @@ def gotoLoop (c : ECfg S) (recur : String → Live S.V → NRes S (Output S.V)) 
             else let f := mkFinal accC' accD' o; ({ l3 with out := some f }, .ok f)
           | none => let f := mkFinal accC' accD' o; ({ l3 with out := some f }, .ok f)
 
-/-- `except Exception: self.current_passage_id = position_before; raise` — a navigation that fails part-way leaves the
-position where it was -/
+/-- `except Exception: self.current_passage_id = position_before; self._join_section_index = join_progress_before; raise`
+— a navigation that fails part-way leaves the position and the `@join` progress where they were -/
 def keepCurOnError {α} (l0 : Live S.V) (r : NRes S α) : NRes S α :=
   match r with
-  | (l', .error e) => ({ l' with cur := l0.cur }, .error e)
+  | (l', .error e) => ({ l' with cur := l0.cur, joinIdx := l0.joinIdx }, .error e)
   | x => x
 
 /-- the `try` body of `goto`: the chain loop from the named passage with fresh accumulators -/
